@@ -144,6 +144,16 @@ class Runs:
         return ob
 
 
+BENIGN_UNKNOWN = ('external call argparse', 'external call logging', 'external call print', 'external call os.',
+                  'external call sys.', 'external call time.', 'external call warnings.', 'external call json.dump',
+                  'external call pprint', 'external call textwrap', 'external call shutil.get_terminal_size')
+
+
+def benign_unknown(u):
+    """unmodelled constructs that cannot carry record data or change which file / codec is used (command line plumbing)"""
+    return str(u[0]).startswith(BENIGN_UNKNOWN)
+
+
 def need_ge0(store, lin, desc, node=None, abstract=None):
     """Obligation lin >= 0 on a path -> [] or [Failure]."""
     lin = Lin.of(lin)
